@@ -6,9 +6,26 @@ pub struct BehaviorSubject<'a, Item>
 where
   Item: Clone + Send + Sync,
 {
-  subject: Arc<subject::Subject<'a, Item>>,
-  last_item: Arc<RwLock<Option<Item>>>,
+  // live items travel with the version they got in `last_item`
+  subject: Arc<subject::Subject<'a, (u64, Item)>>,
+  last_item: Arc<RwLock<(u64, Option<Item>)>>,
   last_error: Arc<RwLock<Option<RxError>>>,
+}
+
+// what reaches a subscriber from the inner subject while it is still being
+// handed the latest value
+enum Pending<Item> {
+  Next(u64, Item),
+  Error(RxError),
+  Complete,
+}
+
+// hand-over state of one subscriber: `Some(buffer)` while the latest value is
+// being handed over, `None` once live events are forwarded directly
+struct HandOver<Item> {
+  buffer: Option<Vec<Pending<Item>>>,
+  // version of the value the subscriber was handed first
+  seen: u64,
 }
 
 impl<'a, Item> BehaviorSubject<'a, Item>
@@ -18,21 +35,26 @@ where
   pub fn new(initial: Item) -> BehaviorSubject<'a, Item> {
     BehaviorSubject {
       subject: Arc::new(subjects::Subject::new()),
-      last_item: Arc::new(RwLock::new(Some(initial))),
+      last_item: Arc::new(RwLock::new((0, Some(initial)))),
       last_error: Arc::new(RwLock::new(None)),
     }
   }
 
   pub fn next(&self, item: Item) {
-    *self.last_item.write().unwrap() = Some(item.clone());
-    self.subject.next(item);
+    let version = {
+      let mut last_item = self.last_item.write().unwrap();
+      last_item.0 += 1;
+      last_item.1 = Some(item.clone());
+      last_item.0
+    };
+    self.subject.next((version, item));
   }
   pub fn error(&self, err: RxError) {
     *self.last_error.write().unwrap() = Some(err.clone());
     self.subject.error(err);
   }
   pub fn complete(&self) {
-    *self.last_item.write().unwrap() = None;
+    self.last_item.write().unwrap().1 = None;
     self.subject.complete();
   }
   pub fn observable(&self) -> Observable<'a, Item> {
@@ -41,24 +63,6 @@ where
     let subject = Arc::clone(&self.subject);
 
     Observable::create(move |s| {
-      {
-        // copy the state out: the subscriber is called with no lock held, so
-        // it may call back into this subject
-        let last_error = last_error.read().unwrap().clone();
-        let last_item = last_item.read().unwrap().clone();
-
-        if let Some(err) = last_error {
-          s.error(err);
-          return;
-        }
-        if let Some(item) = last_item {
-          s.next(item);
-        } else {
-          s.complete();
-          return;
-        }
-      }
-
       let sbsc = Arc::new(RwLock::new(None::<Subscription>));
       {
         let sbsc = Arc::clone(&sbsc);
@@ -69,18 +73,102 @@ where
         });
       }
 
+      // register with the inner subject first, so that no push can fall
+      // between reading the latest value and going live; what arrives
+      // meanwhile is buffered and handed over afterwards. No lock is held
+      // while the subscriber is called, so it may call back into this subject.
+      let hand_over =
+        Arc::new(RwLock::new(HandOver { buffer: Some(Vec::new()), seen: 0 }));
+
       let s_next = s.clone();
       let s_error = s.clone();
       let s_complete = s.clone();
+      let hand_over_next = Arc::clone(&hand_over);
+      let hand_over_error = Arc::clone(&hand_over);
+      let hand_over_complete = Arc::clone(&hand_over);
       *sbsc.write().unwrap() = Some(subject.observable().subscribe(
-        move |x| s_next.next(x),
-        move |e| s_error.error(e),
+        move |(version, x)| {
+          let seen = {
+            let mut h = hand_over_next.write().unwrap();
+            if let Some(buffer) = &mut h.buffer {
+              buffer.push(Pending::Next(version, x));
+              return;
+            }
+            h.seen
+          };
+          // a value stored before the subscriber read the latest one is
+          // covered by what it was handed first
+          if version > seen {
+            s_next.next(x);
+          }
+        },
+        move |e| {
+          {
+            let mut h = hand_over_error.write().unwrap();
+            if let Some(buffer) = &mut h.buffer {
+              buffer.push(Pending::Error(e));
+              return;
+            }
+          }
+          s_error.error(e);
+        },
         move || {
+          {
+            let mut h = hand_over_complete.write().unwrap();
+            if let Some(buffer) = &mut h.buffer {
+              buffer.push(Pending::Complete);
+              return;
+            }
+          }
           s_complete.complete();
         },
       ));
-      // the subscriber may have left while it received the latest value:
-      // the inner subject must not keep holding it
+
+      {
+        // copy the state out: the subscriber is called with no lock held
+        let last_error = last_error.read().unwrap().clone();
+        let (version, last_item) = last_item.read().unwrap().clone();
+
+        if let Some(err) = last_error {
+          s.error(err);
+        } else if let Some(item) = last_item {
+          hand_over.write().unwrap().seen = version;
+          s.next(item);
+        } else {
+          s.complete();
+        }
+      }
+
+      // hand over what arrived meanwhile, then go live
+      loop {
+        let (pending, seen) = {
+          let mut h = hand_over.write().unwrap();
+          let seen = h.seen;
+          match &mut h.buffer {
+            Some(buffer) if !buffer.is_empty() => {
+              (std::mem::take(buffer), seen)
+            }
+            _ => {
+              h.buffer = None;
+              break;
+            }
+          }
+        };
+        for x in pending {
+          match x {
+            Pending::Next(version, x) => {
+              if version > seen {
+                s.next(x);
+              }
+            }
+            Pending::Error(e) => s.error(e),
+            Pending::Complete => s.complete(),
+          }
+        }
+      }
+
+      // the subscriber may have ended during the hand-over (stored terminal,
+      // or it left): the inner subject must not keep holding it
       if !s.is_subscribed() {
         if let Some(sbsc) = &*sbsc.read().unwrap() {
           sbsc.unsubscribe();
